@@ -796,12 +796,17 @@ def shrink_history(p, case, res, sig):
 _PRISTINE = None
 
 
+def _preload():
+    import pyipmi  # noqa: F401
+    import pyipmi.hpm  # noqa: F401
+
+
 def _pristine():
     """the fork server, created the first time a stream asks for it (run() asks before it parses anything)"""
     global _PRISTINE
     if _PRISTINE is None:
         try:
-            _PRISTINE = pristine.Pristine({'history': exec_history})
+            _PRISTINE = pristine.Pristine({'history': exec_history}, _preload)
         except OSError:
             _PRISTINE = False
     return _PRISTINE or None
